@@ -5,6 +5,7 @@ import MgProof.C20.StrLemmas
 import MgProof.C20.NumLemmas
 import MgProof.C20.PathLemmas
 import MgProof.C20.NormLemmas
+import MgProof.C20.NormRef2
 /-!
 # C20 — property theorems (pure utilities)
 
@@ -345,17 +346,31 @@ theorem toul_orig_wraps : strToulOrig [45, 50] 10 = .ok (some 184467440737095516
 /-! ## 6. path functions (clauses "never write beyond the caller's buffer", "NUL-terminate
 whatever they report as success", "agree with a reference path algebra") -/
 
-/-- **join / basename / dirname, main theorem.** For every path(s) without NUL, every buffer
-size and every initial buffer content the model returns normally (so: no write at an index
-`≥ size`, no read of an indeterminate byte), reports success exactly when the reference algebra
-defines a result that fits the buffer with its terminator, keeps the buffer size, and on success
-the buffer holds exactly that result followed by NUL. -/
+/-- **path functions, main theorem.** For every path(s) without NUL, every cwd, every buffer size
+and every initial buffer content each model returns normally (so: no write at an index `≥ size`, no
+read of an indeterminate byte), reports success exactly when the reference path algebra defines a
+result that fits the buffer with its terminator (`specJoin`, `specBasename`, `specDirname`,
+`specNormpath`, `specAbspath`), keeps the buffer size, and on success the buffer holds exactly that
+result followed by NUL. For `normpath` the reference is the segment-wise algebra `refNormpath`
+(drop one leading `./`, a `..` segment removes the previous ordinary segment, is kept after `..` or
+at the start, is an error at a root; a longer name containing `..` is an error). -/
 theorem path_functions_meet_reference (b : Buf) :
     (∀ p1 p2, NoNul p1 → NoNul p2 → Meets (pathJoin true p1 p2 b) b.size (specJoin p1 p2 b.size)) ∧
     (∀ p, NoNul p → Meets (pathBasename true p b) b.size (specBasename p b.size)) ∧
-    (∀ p, NoNul p → Meets (pathDirname p b) b.size (specDirname p b.size)) :=
+    (∀ p, NoNul p → Meets (pathDirname p b) b.size (specDirname p b.size)) ∧
+    (∀ p, NoNul p → Meets (pathNormpath true p b) b.size (specNormpath p b.size)) ∧
+    (∀ cwd p, (∀ c, cwd = some c → NoNul c) → NoNul p →
+      Meets (pathAbspath true cwd p b) b.size (specAbspath cwd p b.size)) :=
   ⟨fun p1 p2 h1 h2 => pathJoin_meets p1 p2 h1 h2 b, fun p h => pathBasename_meets p h b,
-   fun p h => pathDirname_meets p h b⟩
+   fun p h => pathDirname_meets p h b, fun p h => pathNormpath_meets p h b,
+   fun cwd p hc hp => pathAbspath_meets cwd hc p hp b⟩
+
+/-- the loop of `normpath` as a string transformer is exactly the reference fold (the core of
+the refinement: all remaining inputs, all stacks of completed segments, all partial names) -/
+theorem normpath_loop_is_reference_fold (rest cur : CStr) (st : List (CStr × Option Nat))
+    (hst : StackOk st) (hcur : CurOk cur rest) :
+    normGoS rest (flatR st ++ cur) = refK rest cur st :=
+  normGoS_ref rest.length rest cur st (Nat.le_refl _) hst hcur
 
 /-- **normpath / abspath, memory safety and termination** for every path, cwd, buffer size and
 initial content: the model returns normally, and a reported success leaves a NUL-terminated
